@@ -52,6 +52,9 @@ class Cfg:
     col_width_range: tuple | None = None  # page col_width drawn from this range (inches)
     group_by_p: int = 3                   # out of 10
     noncontig: float = 0.0                # probability that group_by keys are made non-contiguous
+    page_by_return: float = 0.0           # probability that a later single-level page_by group reuses the value of an earlier, non-adjacent one
+    numeric_page_by: float = 0.0          # probability that the page_by columns hold numbers (int / float) instead of tagged strings
+    paper_range: tuple | None = None      # paper width / height drawn from this range (inches) instead of the menu
     subline_return: float = 0.0           # probability that a later subline_by section reuses the value of an earlier, non-adjacent one
     convert_per_column: bool = False      # text_convert given per ORIGINAL column; trigger characters only where it is off
 
@@ -272,6 +275,11 @@ def page_spec(draw, cfg: Cfg, nrow=None):
         if g >= 7:
             page["width"] = draw(st.sampled_from([8.27, 11.69, 8.5, 11.0, 7.25, 14.0]))
             page["height"] = draw(st.sampled_from([11.69, 8.27, 11.0, 8.5, 10.5, 5.83]))
+            if cfg.paper_range is not None and draw(st.booleans()):
+                # arbitrary positive paper sizes: labels, posters (A0 33.11 x 46.81), rolls
+                lo, hi = cfg.paper_range
+                page["width"] = round(draw(st.floats(lo, hi)), 2)
+                page["height"] = round(draw(st.floats(lo, hi)), 2)
         if g == 9:
             page["margin"] = [draw(st.sampled_from([0.5, 0.75, 1.0, 1.25, 1.33, 0.79])) for _ in range(6)]
         if g >= 8:
@@ -345,8 +353,23 @@ def table_section(draw, cfg: Cfg, sec_index=0, multi=False):
     cols = [None] * ncol
     if page_by:
         gc = draw(group_columns(n, len(page_by), "@G", cfg, dividers=cfg.dividers))
+        if cfg.page_by_return and len(page_by) == 1 and draw(st.integers(0, 99)) < cfg.page_by_return * 100:
+            # S1 S1 S2 S1 S3: the rows of one value are not contiguous (every run is a group of its own)
+            starts = [i for i in range(n) if i == 0 or gc[0][i] != gc[0][i - 1]]
+            if len(starts) >= 3:
+                k = draw(st.integers(2, len(starts) - 1))
+                end = starts[k + 1] if k + 1 < len(starts) else n
+                if "-----" not in (gc[0][starts[k]], gc[0][starts[k - 2]]):
+                    for i in range(starts[k], end):
+                        gc[0][i] = gc[0][starts[k - 2]]
+        numeric = bool(cfg.numeric_page_by) and draw(st.integers(0, 99)) < cfg.numeric_page_by * 100 \
+            and not any(v == "-----" for c in gc for v in c)
         for lvl, j in enumerate(page_by):
-            cols[j] = {"name": names[j], "dtype": "str", "values": gc[lvl]}
+            if numeric:
+                vals = [None if v is None else (int(v.rsplit("v", 1)[1]) if lvl % 2 == 0 else float(v.rsplit("v", 1)[1]) + 0.5) for v in gc[lvl]]
+                cols[j] = {"name": names[j], "dtype": "int" if lvl % 2 == 0 else "float", "values": vals}
+            else:
+                cols[j] = {"name": names[j], "dtype": "str", "values": gc[lvl]}
         body["page_by"] = [names[j] for j in page_by]
         body["new_page"] = draw(st.booleans())
         if draw(st.booleans()):
